@@ -43,7 +43,11 @@ func exec(c vh.Case, o *vh.Out) {
 		case "pin", "pinmode", "unpin", "update":
 			before := cur
 			presentBefore := fmt.Sprint(w.Present)
+			want, known := w.ExpectOK(f)
 			tok, ws := w.Mutate(f)
+			if known && !desync && want != (tok == "ok") {
+				o.Fail("result-mismatch", "%s returned %s; the pin model says it must %s", line, tok, map[bool]string{true: "succeed", false: "fail"}[want])
+			}
 			o.Kind(f[0])
 			o.Kind("res-" + tok)
 			o.Kind("ctx-" + f[len(f)-1])
